@@ -2,7 +2,7 @@
    Model: Model/Serve.v (process_sync filter, handle_need, send_change_chunks over
    an abstraction of the server database).  Proofs: Proofs/ServeProofs.v. *)
 From Coq Require Import List ZArith Bool Lia.
-From Corro Require Import Lib.Ivl Gen.Consts Model.Chunk Model.Serve Proofs.ChunkProofs Proofs.ServeProofs.
+From Corro Require Import Lib.Ivl Gen.Consts Gen.NeedSql Model.Chunk Model.Serve Proofs.ChunkProofs Proofs.ServeProofs.
 Import ListNotations.
 Open Scope Z_scope.
 
@@ -99,3 +99,27 @@ Example C05_nonvacuous :
      MFull 4 [(0, 4100); (1, 4101)] 0 1 3; MEmpty 1 2; MEmpty 6 6] /\
   serve sv (NFull 3 3) = [].
 Proof. vm_compute. split; reflexivity. Qed.
+
+(* The seq-range SELECT of handle_need's Partial path, GENERATED from the SQL text in the source
+   by tools/needsql2coq.py (Gen/NeedSql.v; Model/Serve.v's Partial path uses this function): for
+   well-formed ranges it selects exactly the recorded ranges that share at least one seq with the
+   requested range -- a recorded range that merely touches the request is not answered from, and
+   none that overlaps is left out -- and the clamp the code then applies (max of the starts, min
+   of the ends) is a non-empty range inside both. *)
+Theorem C05_partial_select_finds_exactly_the_overlapping_ranges : forall rs re s e,
+  rs <= re -> s <= e ->
+  (need_overlap_pred_src rs re s e = true <-> exists x, rs <= x <= re /\ s <= x <= e).
+Proof. exact need_overlap_select_exact. Qed.
+Print Assumptions C05_partial_select_finds_exactly_the_overlapping_ranges.
+
+Theorem C05_partial_answer_range_is_inside_both : forall rs re s e,
+  rs <= re -> s <= e -> need_overlap_pred_src rs re s e = true ->
+  Z.max rs s <= Z.min re e /\ rs <= Z.max rs s /\ Z.min re e <= re /\ s <= Z.max rs s /\ Z.min re e <= e.
+Proof. exact need_overlap_clamp_nonempty. Qed.
+Print Assumptions C05_partial_answer_range_is_inside_both.
+
+Example C05_partial_select_examples :
+  need_overlap_pred_src 3 6 0 2 = false /\ need_overlap_pred_src 3 6 0 3 = true /\
+  need_overlap_pred_src 3 6 4 5 = true /\ need_overlap_pred_src 3 6 6 9 = true /\
+  need_overlap_pred_src 3 6 7 9 = false /\ need_overlap_pred_src 3 6 0 9 = true.
+Proof. vm_compute. repeat split; reflexivity. Qed.
